@@ -163,8 +163,22 @@ where
         if ast.prods.len() + extra_prods > num_traits::cast(StorageT::max_value()).unwrap() {
             panic!("StorageT is not big enough to store this grammar's productions.");
         }
+        // In Eco grammars with implicit tokens every token of a production is followed by the
+        // implicit rule, so a production ends up longer than it is in the AST.
+        let implicit_after_tokens = matches!(
+            (ast_validation.yacc_kind(), &ast.implicit_tokens),
+            (YaccKind::Eco, Some(_))
+        );
         for p in &ast.prods {
-            if p.symbols.len() > num_traits::cast(StorageT::max_value()).unwrap() {
+            let extra_symbols = if implicit_after_tokens {
+                p.symbols
+                    .iter()
+                    .filter(|sym| matches!(sym, ast::Symbol::Token(..)))
+                    .count()
+            } else {
+                0
+            };
+            if p.symbols.len() + extra_symbols > num_traits::cast(StorageT::max_value()).unwrap() {
                 panic!(
                     "StorageT is not big enough to store the symbols of at least one of this grammar's productions."
                 );
